@@ -109,7 +109,7 @@ where
     /// (after the cheap bounding-box rejection) exactly when some member polygon intersects rhs
     open spec fn meets(&self, rhs: &G) -> bool { !boxes_reject(self, rhs) && some_member_meets(self.0@, rhs) }
 //@fn geo/src/algorithm/intersects/polygon.rs | impl<G, T> Intersects<G> for MultiPolygon<T> where T: GeoNum, Polygon<T>: Intersects<G>, G: BoundingRect<T>, | intersects | id=C02.V.multipolygon_intersects
-//@closure 1 `|p| p.intersects(rhs)` | p: &Polygon<T> | o: bool
+//@closure 1 `|p|` | p: &Polygon<T> | o: bool
             ensures o == p.meets(rhs)
 //@end
 }
@@ -121,7 +121,7 @@ where
 {
     open spec fn meets(&self, rhs: &G) -> bool { !boxes_reject(self, rhs) && some_member_meets(self.0@, rhs) }
 //@fn geo/src/algorithm/intersects/line_string.rs | impl<T, G> Intersects<G> for MultiLineString<T> where T: CoordNum, LineString<T>: Intersects<G>, G: BoundingRect<T>, | intersects | id=C02.V.multilinestring_intersects
-//@closure 1 `|p| p.intersects(rhs)` | p: &LineString<T> | o: bool
+//@closure 1 `|p|` | p: &LineString<T> | o: bool
             ensures o == p.meets(rhs)
 //@end
 }
@@ -133,7 +133,7 @@ where
     /// exactly when some member point intersects rhs (no rejection step)
     open spec fn meets(&self, rhs: &G) -> bool { some_member_meets(self.0@, rhs) }
 //@fn geo/src/algorithm/intersects/point.rs | impl<T, G> Intersects<G> for MultiPoint<T> where T: CoordNum, Point<T>: Intersects<G>, | intersects | id=C02.V.multipoint_intersects
-//@closure 1 `|p| p.intersects(rhs)` | p: &Point<T> | o: bool
+//@closure 1 `|p|` | p: &Point<T> | o: bool
             ensures o == p.meets(rhs)
 //@end
 }
